@@ -210,8 +210,57 @@ class Inliner:
     def run(self) -> ast.FunctionDef:
         fn = copy.deepcopy(self.func.node)
         fn.body = self.block(fn.body, self.depth)
+        if self.inlined:
+            propagate_copies(fn)
         ast.fix_missing_locations(fn)
         return fn
+
+
+def propagate_copies(fn: ast.FunctionDef) -> None:
+    """remove the alias chains inlining leaves behind (`p' = p`, `result = v`, `x = result`):
+    for `x = y` with x stored exactly once, y a never-reassigned parameter -> x is renamed to y;
+    y a local stored exactly once -> y is renamed to x (the caller's name survives).  Both
+    names denote the same object from the assignment on, and x is unbound before it."""
+    params = {a.arg for a in fn.args.posonlyargs + fn.args.args + fn.args.kwonlyargs}
+    for _ in range(40):
+        stores: Dict[str, int] = {}
+        for n in ast.walk(fn):
+            if isinstance(n, ast.Name) and isinstance(n.ctx, (ast.Store, ast.Del)):
+                stores[n.id] = stores.get(n.id, 0) + 1
+            elif isinstance(n, (ast.Global, ast.Nonlocal)):
+                return
+        found = None
+        for parent in ast.walk(fn):
+            for field in ('body', 'orelse', 'finalbody'):
+                blk = getattr(parent, field, None)
+                if not (isinstance(blk, list) and blk and isinstance(blk[0], ast.stmt)):
+                    continue
+                for st in blk:
+                    if isinstance(st, ast.Assign) and len(st.targets) == 1 and \
+                            isinstance(st.targets[0], ast.Name) and isinstance(st.value, ast.Name):
+                        x, y = st.targets[0].id, st.value.id
+                        if x == y or stores.get(x) != 1 or x in params:
+                            continue
+                        if y in params and stores.get(y, 0) == 0:
+                            found = (blk, st, x, y)
+                        elif y not in params and stores.get(y) == 1:
+                            found = (blk, st, y, x)
+                        if found:
+                            break
+                if found:
+                    break
+            if found:
+                break
+        if not found:
+            return
+        blk, st, old, new = found
+        if len(blk) == 1:
+            blk[0] = ast.copy_location(ast.Pass(), st)
+        else:
+            blk.remove(st)
+        for n in ast.walk(fn):
+            if isinstance(n, ast.Name) and n.id == old:
+                n.id = new
 
 
 def _falls_through_assign(body, result) -> bool:
@@ -240,3 +289,42 @@ def inlined_function(index: RepoIndex, func: Func, exclude: Optional[Set[str]] =
         return node, il.inlined
     except (NotInlinable, SyntaxError, RecursionError):
         return func.node, []
+
+
+def _canon_plan(index: RepoIndex, module: Module, c: ast.AST):
+    if not (isinstance(c, ast.Call) and c.keywords and isinstance(c.func, ast.Name)):
+        return None
+    if any(k.arg is None for k in c.keywords) or \
+            any(isinstance(a, ast.Starred) for a in c.args):
+        return None
+    r = index.resolve_callee(module, c.func, None)
+    if not isinstance(r, Func) or r.cls is not None or r.node.decorator_list:
+        return None
+    a = r.node.args
+    if a.vararg is not None:
+        return None
+    params = [x.arg for x in a.posonlyargs + a.args]
+    kw = {k.arg for k in c.keywords}
+    n = len(c.args)
+    moved = []
+    while n < len(params) and params[n] in kw:
+        moved.append(params[n])
+        n += 1
+    return moved or None
+
+
+def canon_calls(index: RepoIndex, module: Module, node: ast.AST) -> ast.AST:
+    """calls of plain repository functions with keyword arguments for positional parameters
+    are rewritten to the positional spelling (on a copy), so `f(position=p, action=a)` and
+    `f(p, a)` are one term for the rules"""
+    if not any(_canon_plan(index, module, c) for c in ast.walk(node)):
+        return node
+    node = copy.deepcopy(node)
+    for c in ast.walk(node):
+        plan = _canon_plan(index, module, c)
+        if plan:
+            kw = {k.arg: k for k in c.keywords}
+            for name in plan:
+                c.args.append(kw[name].value)
+                c.keywords.remove(kw[name])
+    return node
